@@ -1052,6 +1052,7 @@ func runC01(p *load.Program, r *oblig.Report) {
 	c01RequestIdentity(p, r)
 	c01ProduceResponse(p, r)
 	c01Temporary(p, r)
+	c01MakeError(p, r, "C01.R9 an error code other than 0 is never taken for an acknowledgement")
 	c07PutDiscipline(p, r, "C01.R4 a batch is produced once: enqueued while current, under the partition mutex")
 	// the acknowledgement is read from a Produce response laid out as Kafka defines it: a field out of place makes an
 	// acknowledged response fail to decode, which the Writer takes for a transient error and sends the batch again
